@@ -69,9 +69,12 @@ FIXED = [
  ("C15", "c15:*:not-idempotent:DecodeParms", "streams with several filters are written with a /DecodeParms array", "a stream with /Filter [/ASCIIHexDecode /FlateDecode] /DecodeParms [null << /Columns 7 >>] was written with the Flate parameters as one dictionary, which the next read pairs with ASCIIHexDecode: parameters lost; two parameterised filters ([/FlateDecode /LZWDecode] with parameters each) hit assert!(params.is_none()) in Stream::to_pdf_stream"),
  ("C15", "c15:AppearanceStreamEntry:written-form-unreadable (nested)", "HashMap writer skips entries whose value writes as null", "appearance dictionary << /On 17 0 R /X << >> >>: the empty nested state dictionary was written as '/X null', which AppearanceStreamEntry's reader rejects"),
  ("C15", "c15:AppearanceStreamEntry:written-form-unreadable (empty)", "an empty appearance dictionary is written as an empty dictionary", "appearance dictionary << >> was written as null, which AppearanceStreamEntry's reader rejects"),
- ("C18", "c18:*:error-instead-of-null:*", "references to missing objects read as null in Option, Vec and HashMap readers", "optional entries referring to a missing object (e.g. Catalog /Outlines 106 0 R beyond /Size: UnspecifiedXRefEntry; SeedValueDictionary /DigestMethod 0 0 R: FreeObject through Vec; Resources /Font 0 0 R through HashMap) made the typed read fail in strict mode because Option's NullRef/FreeObject arms never see the wrapped error"),
- ("C18", "c18:doc:*", "references to missing objects read as null in Option, Vec and HashMap readers", "a document whose catalog has /Outlines 106 0 R (beyond /Size) did not load in strict mode (UnspecifiedXRefEntry)"),
+ ("C18", "c18:*:error-instead-of-null:*", "references to missing objects read as null by the Option, HashMap and Lazy readers", "optional entries referring to a missing object (e.g. Catalog /Outlines 106 0 R beyond /Size: UnspecifiedXRefEntry; SeedValueDictionary /DigestMethod 0 0 R: FreeObject through Vec; Resources /Font 0 0 R through HashMap) made the typed read fail in strict mode because Option's NullRef/FreeObject arms never see the wrapped error; Resources /ExtGState << /GS1 0 0 R >> (HashMap entry) failed likewise; Lazy::load of /Annots 0 0 R failed instead of giving the empty list"),
+ ("C18", "c18:doc:*", "references to missing objects read as null by the Option, HashMap and Lazy readers", "a document whose catalog has /Outlines 106 0 R (beyond /Size) did not load in strict mode (UnspecifiedXRefEntry)"),
  ("C18", "c18:Font*:BaseFont:*:error-does-not-name-entry", "a /BaseFont that refers to a missing object is reported as the missing entry", "Font with /BaseFont 0 0 R failed with a bare FreeObject error naming neither font nor entry"),
+ ("C18", "c18:*:error-instead-of-absent:* (default fields)", "derived readers treat an entry that refers to a missing object like an absent entry", "a field with a default (/Rotate 106 0 R, FontDescriptor /Leading 0 0 R, LZWFlateParams /Predictor 60 0 R ...) failed with FromPrimitive in strict and tolerant mode instead of taking the default; a required field reported the bare missing-object error instead of MissingEntry naming the field"),
+ ("C18", "c18:Font*:Encoding|ToUnicode:*:error-instead-of-absent", "a font whose /Encoding or /ToUnicode refers to a missing object", "Font with /Encoding 0 0 R or /ToUnicode 60 0 R failed to load (hand-written reader passed FreeObject / NullRef on)"),
+ ("C18", "c18:NumberTree*|NameDictionary|Encoding|AppearanceStreamEntry:*:error-instead-of-absent", "name trees, number trees, encodings and appearance dictionaries read an entry", "NumberTree /Limits 0 0 R or /Kids 60 0 R, NameTree /Names 0 0 R, Encoding /Differences 0 0 R, appearance dictionary << /On 0 0 R >> made the whole object unreadable"),
 ]
 OPEN = [
  ("C20", "c20:resource-missing:ColorSpace", "an imported page whose content names a colour space resource (/CS1 cs) arrives without /ColorSpace: deep_clone_op copies only ExtGState, Font and XObject resources; a repair needs writers for most ColorSpace variants (ColorSpace::to_primitive is unimplemented!() except for three), so it is recorded"),
